@@ -9,7 +9,7 @@ import (
 // Skeleton programs for dependency / fork shapes that the purely random
 // generator reaches rarely.  Types and literal values are still random.
 
-const NTemplates = 18
+const NTemplates = 19
 
 // NFileTemplates file-passing skeletons follow the NTemplates dataflow ones.
 const NFileTemplates = 10
@@ -531,6 +531,43 @@ func Template(kind int, seed int64, cfg *Config) *Program {
 			top.Ret = append(top.Ret, Binding{Id: strings.ToLower(pre) + "ya", Exp: ref(pre+"CHAIN", "ya")}, Binding{Id: strings.ToLower(pre) + "yb", Exp: ref(pre+"CHAIN", "yb")})
 		}
 		p.Pipelines = append(pls, top)
+	case 18:
+		// a pipeline mapped over a run-time sized collection (array or typed
+		// map) returns a struct literal and a map literal whose members are
+		// bound directly to outputs of six different child calls: the merged
+		// value has six equally good fork nodes to hang on
+		p.Structs = append(p.Structs, &Struct{Name: "SIX", Fields: []Param{{Name: "a", Type: TInt}, {Name: "b", Type: TInt}, {Name: "c", Type: TInt},
+			{Name: "d", Type: TInt}, {Name: "e", Type: TInt}, {Name: "f", Type: TInt}}})
+		six := &Type{Kind: KStruct, Name: "SIX"}
+		wrapI, arrayMode := ArrayOf, true
+		if g.pct(50) {
+			wrapI, arrayMode = TMapOf, false
+		}
+		geni := src(&Stage{Name: "GENI", Ins: []Param{{Name: "seed", Type: TInt}}, Outs: []Param{{Name: "arr", Type: wrapI(TInt)}}})
+		one := src(&Stage{Name: "ONE", Ins: []Param{{Name: "x", Type: TInt}, {Name: "y", Type: TInt}}, Outs: []Param{{Name: "xo", Type: TInt}}})
+		sees := src(&Stage{Name: "SEES", Ins: []Param{{Name: "v", Type: wrapI(six)}}, Outs: []Param{{Name: "n", Type: TInt}}})
+		p.Stages = []*Stage{geni, one, sees}
+		sub := &Pipeline{Name: "SUBP", Ins: []Param{{Name: "x", Type: TInt}}, Outs: []Param{{Name: "s", Type: six}, {Name: "m", Type: TMapOf(TInt)}}}
+		lits, litm := &Exp{Kind: EStruct}, &Exp{Kind: EMap}
+		for k, f := range []string{"a", "b", "c", "d", "e", "f"} {
+			cn := "C" + strings.ToUpper(f)
+			sub.Calls = append(sub.Calls, &Call{Callee: "ONE", Alias: cn, Binds: []Binding{{Id: "x", Exp: self("x")}, {Id: "y", Exp: lit(int64(k))}}})
+			lits.Keys, lits.Elems = append(lits.Keys, f), append(lits.Elems, ref(cn, "xo"))
+			litm.Keys, litm.Elems = append(litm.Keys, "k"+f), append(litm.Elems, ref(cn, "xo"))
+		}
+		sub.Ret = []Binding{{Id: "s", Exp: lits}, {Id: "m", Exp: litm}}
+		top := &Pipeline{Name: "TOP", Outs: []Param{{Name: "ss", Type: wrapI(six)}, {Name: "n", Type: TInt}},
+			Calls: []*Call{
+				{Callee: "GENI", Binds: []Binding{{Id: "seed", Exp: lit(s1)}}},
+				{Callee: "SUBP", Map: true, Binds: []Binding{{Id: "x", Exp: ref("GENI", "arr"), Split: true}}},
+				{Callee: "SEES", Binds: []Binding{{Id: "v", Exp: ref("SUBP", "s")}}},
+			},
+			Ret: []Binding{{Id: "ss", Exp: ref("SUBP", "s")}, {Id: "n", Exp: ref("SEES", "n")}}}
+		if arrayMode {
+			top.Outs = append(top.Outs, Param{Name: "mm", Type: ArrayOf(TMapOf(TInt))})
+			top.Ret = append(top.Ret, Binding{Id: "mm", Exp: ref("SUBP", "m")})
+		}
+		p.Pipelines = []*Pipeline{sub, top}
 	default:
 		fk := kind - NTemplates // file-passing skeleton number
 		// file-passing skeletons: a stage mapped over a run-time sized
